@@ -22,7 +22,7 @@ SHARED = (
     "S - every parameter of the pinned signatures that can be passed by position keeps its position and every pinned default "
     "keeps its value (or one with which the function computes the same on every path); "
     "W - a decorated public function means the same for positional and keyword calls (decorators, properties, __setattr__, "
-    "the MRO and name mangling are interpreted, not skipped), an override that delegates to super() forwards what it accepts; "
+    "the MRO and name mangling are interpreted, not skipped), an override that delegates to super() - or a function that calls itself - forwards what it accepts; "
     "O - every rule of the property is evaluated again for each new optional parameter that one of the package's own callers "
     "sets to something else than its default (option contexts found at the call sites, DESIGN 9.3d); "
     "P - package plumbing over every module: no process-wide configuration changes, public names bound to their own functions, "
